@@ -503,10 +503,46 @@ var c17Part = evid.Part[C17Case]{
 		}
 		nk := rapid.IntRange(1, 8).Draw(t, "nkeys")
 		seen := map[string]bool{}
+		type c17mh struct {
+			code   uint64
+			digest []byte
+		}
+		var cidmh []c17mh
 		for len(c.Keys) < nk {
 			var k string
 			if c.Store == "cidmemory" {
-				k = val.MakeCidV1(0x55, 0x12, rapid.SliceOfN(rapid.Byte(), 32, 32).Draw(t, "digest"))
+				// the CID-keyed store files blocks under the link's multihash (hash function code, length, digest):
+				// links whose multihashes differ are different keys, also when they carry the same digest bytes under
+				// another hash function code, when one is the identity multihash of the other's digest or of its
+				// whole multihash, or when the digests differ by one trailing byte. (Codec and CID version stay
+				// fixed: links that share the multihash share the block, by design.)
+				digest := rapid.SliceOfN(rapid.Byte(), 32, 32).Draw(t, "digest")
+				code := uint64(0x12)
+				if len(cidmh) > 0 && rapid.IntRange(0, 1).Draw(t, "derived") == 0 {
+					b := cidmh[rapid.IntRange(0, len(cidmh)-1).Draw(t, "base")]
+					switch rapid.IntRange(0, 4).Draw(t, "derive") {
+					case 0:
+						code, digest = rapid.SampledFrom([]uint64{0x12, 0x56, 0x16, 0x1b, 0xb220, 0x00}).Draw(t, "code"), b.digest
+					case 1:
+						code, digest = 0x00, b.digest
+					case 2:
+						code, digest = 0x00, []byte(val.MakeCidV1(0x55, b.code, b.digest)[2:]) // identity of the other's multihash
+					case 3:
+						code, digest = b.code, append(append([]byte{}, b.digest...), 0)
+					default:
+						code, digest = b.code, b.digest[:len(b.digest)-1]
+					}
+				}
+				if len(digest) == 0 {
+					continue
+				}
+				k = val.MakeCidV1(0x55, code, digest)
+				if _, err := nodes.MkLink(k); err != nil {
+					continue
+				}
+				if !seen[k] {
+					cidmh = append(cidmh, c17mh{code, digest})
+				}
 			} else if len(c.Keys) > 0 && rapid.IntRange(0, 3).Draw(t, "derived") == 0 {
 				// a near neighbour of an existing key: keys that differ only late (after a long shared
 				// prefix, around power-of-two lengths) or by one trailing byte must not alias
